@@ -24,6 +24,11 @@ def tok_text(t):
     return 'i' if x == 1 else '%di' % x
 
 
+def imp_text(v, den=12):
+    """Importance value (in units of 1/den) as MCNP text."""
+    return str(v // den) if v % den == 0 else repr(v / den)
+
+
 def imp_deck(g):
     """GenImp record -> abstract deck (slabs along x, optional universe split by py 0)."""
     k = g['ncell']
@@ -35,10 +40,10 @@ def imp_deck(g):
         cell = {'n': c['n'], 'geom': c['geom'], 'u': c['u'], 'fill': c['fill'], 'imp': c['imp']}
         if g['mode'] == 'cell':
             cell['impsrc'] = 'cellmulti'
-            cell['imptxt'] = 'imp:n=%d imp:p=%d' % (c['impn'], c['impp'])
+            cell['imptxt'] = 'imp:n=%s imp:p=%s' % (imp_text(c['impn']), imp_text(c['impp']))
         elif g['mode'] == 'cellmulti':
             cell['impsrc'] = 'cellmulti'
-            cell['imptxt'] = 'imp:p=%d imp:n=%d' % (c['impp'], c['impn'])
+            cell['imptxt'] = 'imp:p=%s imp:n=%s' % (imp_text(c['impp']), imp_text(c['impn']))
         else:
             cell['impsrc'] = 'data'
         cells.append(cell)
